@@ -3,6 +3,7 @@ from vlib import *
 import m_sort
 import m_conv
 import m_rng
+import m_tsplit
 
 
 def run(chk):
@@ -15,6 +16,7 @@ def run(chk):
     m_conv.run(chk, binary, 2500 if quick else 40000, 40 if quick else 120)
     m_sort.run(chk, binary, 300 if quick else 6000)
     m_rng.run(chk, binary, 400 if quick else 8000)
+    m_tsplit.run(chk, binary, 400 if quick else 8000)
     chk.cov["rule"] = ("osu!standard maps (G1: all shapes, format versions 3-14, all object mixes, slider lengths/repeats, hit "
                        "sound flags, timing setups; G2 mutations of the shipped map) x target taiko/catch/mania x key mods 1K-9K "
                        "(legacy bits), 10K (intermode), none; checked on every converted map: objects non-decreasing, "
@@ -26,8 +28,9 @@ def run(chk):
     chk.cov["trusted_base"] = [
         "Coq 8.16.1 kernel + vm_compute incl. primitive floats; Lib/F32.v for the f32 steps",
         "Model/ManiaCols.v, Model/Decode.v hand-written; tied by the column/target_columns traces and the decoder traces",
-        "NOT modelled: which pattern the mania generators choose, slider path lengths, the taiko hit-splitting arithmetic — "
-        "decided by the direct oracle only",
+        "Model/TaikoSplit.v (taiko slider splitting, bit-exact binary64) tied to the real conversion of generated osu! maps on "
+        "every run; its inputs (velocity / beat length active at the slider) are read off the decoded map by the harness",
+        "NOT modelled: which pattern the mania generators choose, slider path lengths — decided by the direct oracle only",
         "random columns: Model/Prng.v (both generators) tied to util/random/{osu,csharp}.rs by recorded call sequences on every "
         "run (hook re-exports OsuRandom / CsharpRandom); next_int_range is proved exact and in range for every generator state "
         "with Flocq (FloatAxioms, Reals axioms, classic, functional extensionality - standard library)",
